@@ -49,11 +49,11 @@ def draw_knobs(rng, thorough=False):
     }
 
 
-def make_instance(knobs=None, src=None):
+def make_instance(knobs=None, src=None, extra=()):
     kn = dict(DEFAULT_KNOBS)
     kn.update(knobs or {})
     G = loader.load(src=src, glom_debug=kn['glom_debug_env'], trace_width=kn['trace_width'],
-                    set_factory=make_set_factory(kn['set_perm']))
+                    set_factory=make_set_factory(kn['set_perm']), extra=extra)
     loader.apply_knobs(G, max_cache=kn['max_cache'], path_star=kn['path_star'])
     return G
 
